@@ -379,8 +379,10 @@ class Gen:
         if self.on("distinct") and r.random() < 0.3:
             q["distinct"] = True
         outv = pv if q["star"] else [x["as"] for x in q["proj"]]
-        if self.on("order") and outv and r.random() < (0.5 if sub else 0.35):
-            ks = r.sample(outv, min(len(outv), r.choice([1, 1, 2])))
+        # a subquery may be ordered by variables it does not project (ORDER BY applies before projection)
+        keyv = pv if (sub and not q["distinct"] and r.random() < 0.5) else outv
+        if self.on("order") and keyv and r.random() < (0.5 if sub else 0.35):
+            ks = r.sample(keyv, min(len(keyv), r.choice([1, 1, 2])))
             q["order"] = [{"v": x, "d": r.choice(["asc", "desc"])} for x in ks]
         if self.on("limit") and r.random() < (0.35 if q["order"] else 0.15):
             q["limit"] = r.randint(0, 4)
